@@ -17,7 +17,9 @@ def jsonable(x, depth=0, trunc=True):
         if trunc and isinstance(x, str) and len(x) > 400:
             return x[:400] + "...(%d chars)" % len(x)
         if type(x) not in (bool, int, str, type(None)):
-            return {"__sub__": type(x).__mro__[-2].__name__, "v": str(x)}
+            if trunc:   # observations: the value is what matters
+                return str.__str__(x) if isinstance(x, str) else (int(x) if isinstance(x, int) else x)
+            return {"__sub__": type(x).__mro__[-2].__name__, "v": str(x)}   # arguments: keep the fact that it was a subclass
         return x
     if isinstance(x, float):
         return x if x == x and x not in (float("inf"), float("-inf")) else {"__float__": repr(x)}
